@@ -214,6 +214,7 @@ class Source:
         self.state = "fresh"   # fresh/running/exhausted/raised/closed
         self.pulls = 0
         self.closes = 0
+        self.ended = False     # answered `end` or raised: finished for every observer
 
     def __repr__(self):
         return f"Source({self.name},{self.state})"
